@@ -58,6 +58,10 @@ CHECKS['C10'] = ('3/C10', 'Boundary arrays from the real calculate_xbnds/_calcul
                  'real _map_asm2gap runs on them with every mesh interleaving as a path; non-negativity, rows summing to one, adjointness '
                  'and preservation of the perimeter-weighted integral are SMT queries per entry.')
 
+CHECKS['C06'] = ('3/C06', 'Self-composition over the real clone code: A cloned next to a sibling that updated its material last vs A cloned '
+                 'alone, real Material objects with property tables as uninterpreted functions; the solver decides whether the two explicit '
+                 'steps can differ.  The object graph after the real clone methods and in a real Reactor is checked for shared stateful objects.')
+
 NOT_APPLICABLE = {
     'C16': ('No symbolic dimension for a solver: process schedules/multiprocessing/file output, bitwise IEEE determinism, and '
             'object-identity/type mutation of the input dictionary on `is None`/key-presence branches (DESIGN section 4).'),
